@@ -75,7 +75,7 @@ static void run_one(const hx_buf *q, const hx_buf *r, const int *cuts, int nc, s
     hx_report_verdicts(&S, &O, PROPS);
 }
 static long case_id;
-static void fidelity_case(int pi, int ce, int framing, int side, int invalid, int thorough) {
+static void fidelity_case(int pi, int ce, int framing, int side, int invalid, int thorough, size_t bomb_limit) {
     if (case_id++ % hx_shard_n != hx_shard_i || hx_deadline_hit()) return;
     static hx_buf z, q, r; hb_reset(&z); hb_reset(&q); hb_reset(&r);
     static const char junk[] = "this is plain text, not a compressed stream at all, and it is long enough to matter: 0123456789 0123456789";
@@ -88,11 +88,11 @@ static void fidelity_case(int pi, int ce, int framing, int side, int invalid, in
     else if (framing == 1) { hb_puts(w, "Transfer-Encoding: chunked\r\n\r\n"); zstart = w->n; int sz[2] = { (int) (z.n / 2), (int) (z.n - z.n / 2) }; gx_chunked(w, z.p, z.n, sz, 2, 0, 0); }
     else { hb_puts(w, "\r\n"); zstart = w->n; hb_put(w, z.p, z.n); }
     size_t zend = w->n;
-    hx_script_init(&S); S.cfg.req_decomp = 1; S.inspect = inspect;
+    hx_script_init(&S); S.cfg.req_decomp = 1; S.inspect = inspect; S.cfg.bomb_limit = (uint32_t) bomb_limit;
     DT.side = side; DT.check_bound = 0; DT.expect_exact = 1; DT.alt = NULL; DT.invalid_lzma = invalid && ce == CE_LZMA;
     if (invalid) { DT.want = (const uint8_t *) junk; DT.wn = sizeof junk - 1; } else { DT.want = PAY[pi].p; DT.wn = PAY[pi].n; }
     snprintf(DT.desc, sizeof DT.desc, "%s body, payload %s, Content-Encoding: %s%s, framing %s", side ? "response" : "request", invalid ? "PLAIN TEXT (not valid for the coding)" : PAYNAME[pi], CEDESC[ce],
-             "", framing == 0 ? "Content-Length" : framing == 1 ? "chunked" : "close-delimited");
+             bomb_limit ? " (bomb limit below the payload size; the ratio stays far under 2048, so this is no bomb)" : "", framing == 0 ? "Content-Length" : framing == 1 ? "chunked" : "close-delimited");
     S.label = DT.desc;
     if (case_id % 37 == 1) hx_emit_sample(DT.desc);
     size_t base = side ? q.n : 0;
@@ -157,6 +157,33 @@ static void bomb_case(size_t zeros, int layers, size_t limit, int layer_limit, i
     hx_report_verdicts(&S, &O, PROPS);
     hx_emit_sample(DT.desc);
 }
+/* a bomb followed by a long incompressible tail, delivered in tiny chunks: after the bomb has been reported, every further
+ * data call must add nothing (a refused output buffer must not be handed out again, call after call) */
+static void bomb_tail_case(size_t zeros, size_t tail, int layers, size_t limit, size_t chunk) {
+    if (case_id++ % hx_shard_n != hx_shard_i || hx_deadline_hit()) return;
+    static hx_buf raw, z1, z2, q, r;
+    hb_reset(&raw); hb_reset(&z1); hb_reset(&z2); hb_reset(&q); hb_reset(&r);
+    { uint8_t *zz = calloc(1, zeros); hb_put(&raw, zz, zeros); free(zz); }
+    uint32_t x = 12345; for (size_t i = 0; i < tail; i++) { x = x * 1664525u + 1013904223u; hb_putc(&raw, (int) (x >> 24)); }
+    gx_deflate(&z1, raw.p, raw.n, 0); hx_buf *top = &z1;
+    if (layers >= 2) { gx_deflate(&z2, z1.p, z1.n, 0); top = &z2; }
+    if (top->n / chunk + 8 > HX_MAXOPS) return;
+    hb_puts(&q, "GET /b HTTP/1.1\r\nHost: h\r\n\r\n");
+    hb_printf(&r, "HTTP/1.1 200 OK\r\nContent-Encoding: %s\r\nContent-Length: %zu\r\n\r\n", layers == 1 ? "gzip" : "gzip, gzip", top->n);
+    size_t head = r.n; hb_put(&r, top->p, top->n);
+    hx_script_init(&S); S.cfg.bomb_limit = (uint32_t) limit; S.inspect = bomb_inspect; S.cfg.log_level = HTP_LOG_NONE;
+    bomb_limit_cur = limit ? limit : 1048576; compressed_offered = top->n;
+    DT.expect_exact = 0; DT.side = 1; DT.invalid_lzma = 0;
+    snprintf(DT.desc, sizeof DT.desc, "bomb with tail: %zu zero bytes + %zu incompressible bytes, %d gzip layer(s) (%zu bytes on the wire), bomb limit %zu, delivered %zu byte(s) at a time", zeros, tail, layers, top->n, bomb_limit_cur, chunk);
+    S.label = DT.desc;
+    S.nops = 0; hx_script_add(&S, OP_Q, q.p, (uint32_t) q.n); hx_script_add(&S, OP_S, r.p, (uint32_t) head);
+    for (size_t o = head; o < r.n; o += chunk) hx_script_add(&S, OP_S, r.p + o, (uint32_t) (r.n - o < chunk ? r.n - o : chunk));
+    hx_script_add(&S, OP_CLOSE, NULL, 0);
+    if (hx_run(&S, &O)) return;
+    n_exec++; n_calls += O.ncalls; cx_set_add(&outs, hx_fnv(&O.tx[0].body_len[1], 8, (uint64_t) case_id));
+    hx_report_verdicts(&S, &O, PROPS);
+    hx_emit_sample(DT.desc);
+}
 /* the decompression time limit: the virtual clock jumps past it at every possible gettimeofday ordinal; after the jump
  * the remaining data must be passed through, never lost, and nothing may crash */
 static void clock_case(int at) {
@@ -180,14 +207,19 @@ static int worker(int argc, char **argv) {
     make_payloads(big);
     for (int side = 1; side >= 0; side--) for (int ce = 0; ce < CE__N; ce++) for (int pi = 0; pi < NPAY; pi++) for (int fr = 0; fr < (side ? 3 : 2); fr++) {
         if (side == 0 && ce >= CE_GZIP_DEFLATE) continue;       /* request decompression handles a single coding */
-        fidelity_case(pi, ce, fr, side, 0, thorough);
+        fidelity_case(pi, ce, fr, side, 0, thorough, 0);
+        /* a payload larger than a small configured bomb limit is still no bomb while the ratio is under 2048: nothing may be lost */
+        if (PAY[pi].n > 10000 && fr == 0) { fidelity_case(pi, ce, fr, side, 0, thorough, 1000); fidelity_case(pi, ce, fr, side, 0, thorough, 10000); }
     }
-    for (int side = 1; side >= 0; side--) for (int ce = 0; ce < CE_GZIP_DEFLATE; ce++) for (int fr = 0; fr < 2; fr++) fidelity_case(0, ce, fr, side, 1, thorough);
+    for (int side = 1; side >= 0; side--) for (int ce = 0; ce < CE_GZIP_DEFLATE; ce++) for (int fr = 0; fr < 2; fr++) fidelity_case(0, ce, fr, side, 1, thorough, 0);
     if (bombs) {
         static const size_t LIM[] = { 1024, 65536, 0 };
         size_t zeros = thorough ? (64u << 20) : (4u << 20);
         for (int layers = 1; layers <= 3; layers++) for (int li = 0; li < 3; li++) for (int d = 0; d < 3; d++) bomb_case(zeros, layers, LIM[li], -1, d);
         for (int ll = 0; ll <= 3; ll++) for (int layers = 1; layers <= 3; layers++) bomb_case(200000, layers, 0, ll, 0);
+        static const size_t TLIM[] = { 4096, 100000, 0 };
+        for (int layers = 1; layers <= 2; layers++) for (int li = 0; li < 3; li++) for (size_t ch = 1; ch <= 5; ch += (ch < 3 ? 1 : 2))
+            for (int zi = 0; zi < 2; zi++) bomb_tail_case(zi ? (12u << 20) : (1u << 20), thorough ? 7000 : 4000, layers, TLIM[li], ch);
         for (int at = 1; at <= 40; at++) clock_case(at);
     }
     hx_emit_stat("executions", n_exec); hx_emit_stat("calls", n_calls); hx_emit_stat("cases", hx_shard_i == 0 ? case_id : 0); hx_emit_stat("distinct_outcomes", (long long) outs.cnt);
